@@ -179,6 +179,92 @@ def main():
                           'r,s arbitrary 16-bit values, recovery id arbitrary byte; toy curves %s (compact-recoverable on %s only)' % (toys if chk.thorough else toys[:1], toys[:1]))
         chk.outside.append('Verify with the compact-recoverable encoding on toy curves other than %s (solver returns unknown within the limit; the recovery algebra on them is decided by C11)' % (toys[:1],))
 
+    # ---------------------------------------------------------------- toy semantics: ASN.1 encoding and the Bitcoin entry point
+    # Verify(.., EncodingASN1) = strict-DER grammar (independent transcription, specs.der_sig_grammar at n') composed with 4.1.4; every byte
+    # of the candidate signature is symbolic.  bitcoin.VerifyASN1 = BIP-66 grammar of sig  /\  len(digest) = 32 (SHA-256)  /\  strict DER of
+    # sig[:-1]  /\  s <= (n'-1)/2  /\  4.1.4.
+    from . import specs as S
+    BTC = MOD + '/secec/bitcoin.'
+
+    def asn1_spec(toy, B, e16, q, malle):
+        acc, rv, sv = S.der_sig_grammar(B, upper=toy.n)
+        if acc is False:
+            return False
+        r, s = tm.trunc(rv, W), tm.trunc(sv, W)
+        base = tm.band(acc, spec_verify(toy, e16, r, s, q))
+        if malle:
+            base = tm.band(base, tm.ule(s, (toy.n - 1) // 2, W))
+        return base
+
+    def t_verify_asn1(toy, hashid, malle, L, LS):
+        def task(sub):
+            def h(ctx):
+                m = mk(ctx, toy)
+                q = tm.var('q', W)
+                ctx.assume(tm.band(tm.ult(q, toy.n, W), tm.bnot(tm.eq(q, 0, W))))
+                e16, hb = digest_bytes(L)
+                B = sym_bytes('sig', LS)
+                opts = X.Ptr(m.new_obj(None, tree=[hashid, 0, False, malle], label='ECDSAOptions'), ())
+                pub = T.new_public_key(m, q)
+                hsl, ssl = m.new_byte_slice(hb, 'digest'), m.new_byte_slice(B, 'sig')
+                snap = snapshot(m, [pub, hsl, ssl, opts])
+                res = m.call(PK + 'Verify', [pub, hsl, ssl, opts])
+                sub.note_machine(m)
+                ctx.check(unchanged(m, snap), 'bv:key-object-and-arguments-unchanged-by-verification')
+                spec = asn1_spec(toy, B, e16, q, malle) if L == stubs.HASH_SIZES[hashid or 5] else False
+                ctx.check(tm.eq(res, spec, 0), 'bv:Verify-accepts-iff-strict-DER-and-4.1.4')
+                return ctx.branch(res) if isinstance(res, tm.T) else bool(res)
+            lbl = 'toy(%d,%d)/Verify[hash=%d,enc=ASN1,rejectMalleable=%s]@len%d,siglen%d' % (toy.p, toy.n, hashid, malle, L, LS)
+            paths = sub.explore(lbl, h, mode='bv')
+            if L == stubs.HASH_SIZES[hashid or 5] and 8 <= LS <= (8 if toy.n <= 128 else 9 if malle else 10):
+                sub.add(lbl + '/witness-accept-and-reject', [], {p.value for p in paths} >= {True, False})
+        return task
+
+    def t_bitcoin(toy, L, LS):
+        def task(sub):
+            def h(ctx):
+                m = mk(ctx, toy)
+                q = tm.var('q', W)
+                ctx.assume(tm.band(tm.ult(q, toy.n, W), tm.bnot(tm.eq(q, 0, W))))
+                e16, hb = digest_bytes(L)
+                B = sym_bytes('sig', LS)
+                pub = T.new_public_key(m, q)
+                hsl, ssl = m.new_byte_slice(hb, 'digest'), m.new_byte_slice(B, 'sig')
+                snap = snapshot(m, [pub, hsl, ssl])
+                res = m.call(BTC + 'VerifyASN1', [pub, hsl, ssl])
+                sub.note_machine(m)
+                ctx.check(unchanged(m, snap), 'bv:key-object-and-arguments-unchanged-by-verification')
+                if L != 32 or LS < 9:
+                    spec = False
+                else:
+                    spec = tm.band(S.bip66_grammar(B), asn1_spec(toy, B[:-1], e16, q, True))
+                ctx.check(tm.eq(res, spec, 0), 'bv:VerifyASN1-accepts-iff-BIP66-envelope-and-32-byte-digest-and-low-s-and-4.1.4')
+                return ctx.branch(res) if isinstance(res, tm.T) else bool(res)
+            lbl = 'toy(%d,%d)/bitcoin.VerifyASN1@len%d,siglen%d' % (toy.p, toy.n, L, LS)
+            paths = sub.explore(lbl, h, mode='bv')
+            if L == 32 and 9 <= LS <= (9 if toy.n <= 128 else 10):   # low-s: the s INTEGER has one byte
+                sub.add(lbl + '/witness-accept-and-reject', [], {p.value for p in paths} >= {True, False})
+        return task
+    if not only or 'asn1' in only:
+        toy = T.get_toy(*toys[0])
+        siglens = (0, 7, 8, 9, 10, 11) if not chk.thorough else tuple(range(0, 14))
+        for LS in siglens:
+            for malle in (False, True):
+                tasks.append(('asn1', t_verify_asn1(toy, 5, malle, 32, LS)))
+            for L in (0, 31, 32, 33, 64):
+                tasks.append(('asn1', t_bitcoin(toy, L, LS)))
+        # n' = 139 > 128: INTEGER bodies with a leading zero byte (values 128..138) are reachable
+        toy2 = T.get_toy(*toys[1])
+        for LS in (8, 9, 10):
+            tasks.append(('asn1', t_verify_asn1(toy2, 5, True, 32, LS)))
+            tasks.append(('asn1', t_bitcoin(toy2, 32, LS + 1)))
+        tasks.append(('asn1', t_verify_asn1(toy, 5, True, 64, 8)))
+        tasks.append(('asn1', t_verify_asn1(toy, 7, True, 64, 8)))
+        tasks.append(('asn1', t_verify_asn1(toy, 7, False, 32, 9)))
+        chk.bounds.append('Verify(EncodingASN1) and bitcoin.VerifyASN1 on toy curves %s (every length) and %s (lengths 8..11, two-byte INTEGER bodies reachable): candidate signatures of %s bytes with every byte symbolic; '
+                          'digest lengths {0,31,32,33,64} for the Bitcoin entry point; oracle = independent strict-DER / BIP-66 grammars composed with 4.1.4' % (toys[0], toys[1], list(siglens)))
+        chk.outside.append('ASN.1 signatures whose INTEGER bodies are longer than the toy scalars need (the byte-level parser at full width, lengths 0..80, is C12)')
+
     # contracts this check's toy layer uses for routines named in the property's own file list: re-decided here (see common.include_dependency)
     from .common import include_dependency
     if not only or 'dep' in only:
